@@ -105,6 +105,7 @@ func runC08(r *Result, thorough bool) {
 		"oracle: no panic, delivered blocks unchanged, a valid exchange still succeeds afterwards. non-trivial: the input reached a handler body"
 	rng := rand.New(rand.NewSource(r.Seed))
 	c08Decode(r, rng, thorough)
+	byteCodecCorrespondence(r, rand.New(rand.NewSource(r.Seed+7919)), thorough)
 	c08Hashgraph(r, rng, thorough)
 	c08Node(r, rng, thorough)
 }
